@@ -41,6 +41,10 @@ pub enum Ty {
     Poll(Box<Ty>),
     /// the sending half of an unbounded channel
     Chan,
+    /// a signed machine integer (`AtomicI8` flag)
+    Int,
+    /// an `AtomicWaker`
+    Waker,
     Fun(Vec<Ty>, Box<Ty>),
     Counter,
     /// a user callback without result held as a value (`F: FnOnce()` inside an `Option` cell)
@@ -87,6 +91,8 @@ impl Ty {
             Ty::Fut(_) => "Rs.Fut".into(),
             Ty::Poll(t) => format!("(Rs.Poll {})", t.lean()),
             Ty::Chan => "Rs.Chan".into(),
+            Ty::Int => "Int".into(),
+            Ty::Waker => "Rs.Waker".into(),
             Ty::Fun(a, r) => {
                 let mut s = String::new();
                 for t in a {
@@ -302,6 +308,8 @@ impl Generics {
                     "AssertUnwindSafe" | "Pin" if args.len() == 1 => self.ty(args[0]),
                     "Poll" if args.len() == 1 => Ok(Ty::Poll(Box::new(self.ty(args[0])?))),
                     "UnboundedSender" => Ok(Ty::Chan),
+                    "AtomicI8" | "AtomicI32" | "AtomicIsize" | "i8" | "i32" | "i64" | "isize" => Ok(Ty::Int),
+                    "AtomicWaker" => Ok(Ty::Waker),
                     // the receiving half: a stream whose `next()` polls are answered by the oracle
                     "UnboundedReceiver" if args.len() == 1 => Ok(Ty::Fut(Box::new(Ty::Opt(Box::new(self.ty(args[0])?))))),
                     "Output" | "Item" if tp.path.segments.len() == 2 && tp.path.segments[0].ident == "Self" && self.map.contains_key(&format!("Self::{}", name)) => {
@@ -683,6 +691,7 @@ impl<'a> Fx<'a> {
                     },
                     ("len", 0) => Some(Ty::Nat),
                     ("next", 0) if matches!(rt, Ty::Fut(_)) => Some(rt),
+                    ("load", 1) | ("get", 0) if matches!(rt, Ty::Int | Ty::Bool) => Some(rt),
                     ("unbounded_send", 1) if rt == Ty::Chan => Some(Ty::Res(Box::new(Ty::Unit), Box::new(Ty::Unit))),
                     ("poll", 1) | ("poll_unpin", 1) => match rt {
                         Ty::Fut(o) => Some(Ty::Poll(o)),
@@ -1445,6 +1454,7 @@ impl<'a> Fx<'a> {
             Expr::Unary(u) => match u.op {
                 UnOp::Deref(_) => self.expr(&u.expr),
                 UnOp::Not(_) => Ok(format!("(!{})", self.expr(&u.expr)?)),
+                UnOp::Neg(_) => Ok(format!("(-{} : Int)", self.expr(&u.expr)?)),
                 _ => bail("unary operator"),
             },
             Expr::Lit(l) => match &l.lit {
@@ -1519,6 +1529,10 @@ impl<'a> Fx<'a> {
                 }
                 let r = self.expr(&b.right)?;
                 match b.op {
+                    BinOp::Lt(_) if self.tyx(&b.left) == Some(Ty::Int) => Ok(format!("(decide (({} : Int) < {}))", l, r)),
+                    BinOp::Gt(_) if self.tyx(&b.left) == Some(Ty::Int) => Ok(format!("(decide (({} : Int) < {}))", r, l)),
+                    BinOp::Ne(_) if self.tyx(&b.left) == Some(Ty::Int) => Ok(format!("(!decide (({} : Int) = {}))", l, r)),
+                    BinOp::Eq(_) if self.tyx(&b.left) == Some(Ty::Int) => Ok(format!("(decide (({} : Int) = {}))", l, r)),
                     BinOp::Lt(_) => Ok(format!("(Rs.lt {} {})", l, r)),
                     BinOp::Le(_) => Ok(format!("(Rs.le {} {})", l, r)),
                     BinOp::Gt(_) => Ok(format!("(Rs.lt {} {})", r, l)),
@@ -2012,6 +2026,10 @@ impl<'a> Fx<'a> {
             }
             return bail("the cell subscription (RcSubscription) is not available in this module");
         }
+        // `cx.waker()` of a poll function
+        if name == "waker" && nargs == 0 && matches!(&*m.receiver, Expr::Path(p) if last_seg(&p.path) == "cx") {
+            return Ok("()".into());
+        }
         // the sending half of a channel
         if rt == Some(Ty::Chan) {
             match (name.as_str(), nargs) {
@@ -2191,8 +2209,22 @@ impl<'a> Fx<'a> {
                 _ => {}
             }
         }
-        // `Cell<bool>` / `AtomicBool`
-        if rt == Some(Ty::Bool) {
+        // an `AtomicWaker`
+        if rt == Some(Ty::Waker) {
+            match (name.as_str(), nargs) {
+                ("wake", 0) => {
+                    self.out("Rs.emitWake".to_string())?;
+                    return Ok("()".into());
+                }
+                ("register", 1) => {
+                    self.out("Rs.emitRegister".to_string())?;
+                    return Ok("()".into());
+                }
+                _ => {}
+            }
+        }
+        // `Cell<bool>` / `AtomicBool` / `AtomicI8`
+        if rt == Some(Ty::Bool) || rt == Some(Ty::Int) {
             match (name.as_str(), nargs) {
                 ("get", 0) | ("load", 1) => return self.expr(&m.receiver),
                 ("set", 1) | ("store", 2) => {
@@ -3029,7 +3061,7 @@ pub fn translate_poll_fn(items: &[Item], name: &str, ctx: &Ctx, hints: &HashMap<
         locals: HashMap::new(),
         aliases: HashMap::new(),
         effectful: true,
-        newtype: false,
+        newtype: si.root_ty.is_some(),
         payload_of: HashMap::new(),
         extra: vec![],
         fname: pname.clone(),
@@ -3057,6 +3089,18 @@ pub fn translate_poll_fn(items: &[Item], name: &str, ctx: &Ctx, hints: &HashMap<
                 Ok(())
             }
             Expr::Block(b) => tail_block(fx, &b.block),
+            Expr::If(i) if !matches!(&*i.cond, Expr::Let(_)) && i.else_branch.is_some() => {
+                let c = fx.expr(&i.cond)?;
+                fx.emit(format!("if {} then", c));
+                fx.ind += 1;
+                tail_block(fx, &i.then_branch)?;
+                fx.ind -= 1;
+                fx.emit("else");
+                fx.ind += 1;
+                tail(fx, &i.else_branch.as_ref().unwrap().1)?;
+                fx.ind -= 1;
+                Ok(())
+            }
             Expr::Loop(_) => fx.expr_stmt(e),
             _ => {
                 let v = fx.expr(e)?;
@@ -3118,6 +3162,13 @@ pub fn translate_plain_struct(items: &[Item], name: &str, ctx: &mut Ctx, hints: 
                 fields.push((n.clone(), g.ty(&f.ty).map_err(|e| format!("field {}: {}", n, e))?));
             }
         }
+        Fields::Unnamed(u) if u.unnamed.len() == 1 => {
+            // a newtype: the state is what it wraps
+            let t = g.ty(&u.unnamed[0].ty).map_err(|e| format!("field 0: {}", e))?;
+            let s = format!("abbrev {} := {}\n\n", name, t.lean());
+            ctx.structs.insert(name.to_string(), StructInfo { name: name.to_string(), fields: vec![], methods: HashMap::new(), root_ty: Some(t), prefix: String::new(), cells: vec![] });
+            return Ok(s);
+        }
         _ => return bail("struct shape"),
     }
     let mut s = format!("structure {} where\n", name);
@@ -3168,13 +3219,15 @@ pub fn translate_observer(items: &[Item], name: &str, ctx: &mut Ctx, hints: &Has
     let obs_impl = impls
         .iter()
         .find(|im| matches!(&im.trait_, Some(tr) if TRAITS.contains(&last_seg(&tr.0).as_str())))
+        .or_else(|| impls.iter().find(|im| im.trait_.is_none()))
         .ok_or(format!("impl Observer / Subscription for {} not found", name))?;
-    let tr = &obs_impl.trait_.as_ref().unwrap().0;
-    let targs = type_args(tr);
     let mut err_names = vec![];
-    if targs.len() == 2 {
-        if let Type::Path(tp) = targs[1] {
-            err_names.push(last_seg(&tp.path));
+    if let Some(tr) = &obs_impl.trait_ {
+        let targs = type_args(&tr.0);
+        if targs.len() == 2 {
+            if let Type::Path(tp) = targs[1] {
+                err_names.push(last_seg(&tp.path));
+            }
         }
     }
     ctx.structs.entry(name.to_string()).or_insert(StructInfo {
@@ -3322,7 +3375,7 @@ pub fn translate_observer(items: &[Item], name: &str, ctx: &mut Ctx, hints: &Has
             return bail(format!("{}::{}: a method that both mutates and returns a value", name, fname));
         }
         let body_txt = show_full(&u.f.block);
-        let needs_closed = body_txt.contains("is_closed") || fname == "is_closed";
+        let needs_closed = body_txt.contains("is_closed") || (fname == "is_closed" && u.im.trait_.is_some());
         let needs_down = (has_ret && (body_txt.contains("is_finished") || fname == "is_finished"))
             || body_txt.contains("unbounded_send")
             || (has_ret && body_txt.contains("sender . is_closed"));
@@ -4369,11 +4422,14 @@ fn main() {
                     }
                 }
             }
+            // (a plain struct that mentions an observer struct of the same file is taken up again after the observers)
+            let mut later: Vec<&str> = vec![];
             for pst in ent.structs {
                 let hints: HashMap<String, Ty> =
                     ent.hints.iter().filter(|h| h.0 == *pst).map(|h| (h.1.to_string(), parse_spec(h.2))).collect();
                 match translate_plain_struct(&items, pst, &mut ctx, &hints) {
                     Ok(s) => lean += &s,
+                    Err(e) if ent.observers.iter().any(|o| e.contains(&format!("`{}`", o))) => later.push(*pst),
                     Err(e) => {
                         failed += 1;
                         eprintln!("{}: struct {}: {}", ent.file, pst, e);
@@ -4395,6 +4451,18 @@ fn main() {
                         eprintln!("{}: {}: {}", ent.file, obs, msg);
                         lean += &partial;
                         writeln!(lean, "-- TRANSLATION FAILED for {}: {}\n", obs, msg.replace('\n', " ")).unwrap();
+                    }
+                }
+            }
+            for pst in later {
+                let hints: HashMap<String, Ty> =
+                    ent.hints.iter().filter(|h| h.0 == pst).map(|h| (h.1.to_string(), parse_spec(h.2))).collect();
+                match translate_plain_struct(&items, pst, &mut ctx, &hints) {
+                    Ok(s) => lean += &s,
+                    Err(e) => {
+                        failed += 1;
+                        eprintln!("{}: struct {}: {}", ent.file, pst, e);
+                        writeln!(lean, "-- TRANSLATION FAILED for struct {}: {}\n", pst, e).unwrap();
                     }
                 }
             }
